@@ -443,6 +443,11 @@ def cmp0(op, p):
     if p.is_const():
         c = p.const_value()
         return Const({"lt": c < 0, "le": c <= 0, "eq": c == 0, "ne": c != 0}[op])
+    if 1 <= len(p.t) <= 2 and any(len(m) == 1 and m[0][0] == INF and m[0][1] == 1 for m in p.t) and all(m == () or (len(m) == 1 and m[0][0] == INF and m[0][1] == 1) for m in p.t):
+        # k*inf + c: the sign of k decides (inf >= -inf, 3 < inf)
+        k = next(c for m, c in p.t.items() if m != ())
+        if k != 0:
+            return Const({"lt": k < 0, "le": k < 0, "eq": False, "ne": True}[op])
     if op == "lt" and _nonneg_poly(p):
         return FALSE
     if op == "le" and _nonneg_poly(-p) and False:
